@@ -144,7 +144,7 @@ fn rename_got(g: &Got, var: &dyn Fn(&str) -> String, fun: &dyn Fn(&str) -> Strin
 /// model in which a random subset of the occurring names is bound
 fn model_for(occ: &[(char, String)], r: &mut Rng) -> Model {
     let mut m = Model::new();
-    let vals = [RV::Int(2), RV::Int(-3), RV::Float(1.5), RV::Bool(true), RV::Bool(false), RV::Str("q".into())];
+    let vals = [RV::Int(2), RV::Int(-3), RV::Float(1.5), RV::Bool(true), RV::Bool(false), RV::Str("q".into()), RV::Tuple(vec![RV::Int(5), RV::Tuple(vec![RV::Int(6), RV::Int(7)])]), RV::Str("a".into())];
     for (c, n) in occ {
         match c {
             'f' => {
@@ -406,7 +406,7 @@ impl Phase for Random {
         let depth = r.range(1, 12);
         let distinct = r.chance(1, 2);
         let ast = {
-            let vars = ["a", "b", "c", "x", "f", "g", "total", "ī", "нx", "ȫ", "ш", "a.b", "x'", "#q", "a\u{feff}b", "n\u{feff}", "\u{feff}z", "a\u{200b}", "r", "b"];
+            let vars = ["a", "b", "c", "x", "f", "g", "total", "ī", "нx", "ȫ", "ш", "a.b", "x'", "#q", "a\u{feff}b", "n\u{feff}", "\u{feff}z", "a\u{200b}", "r", "b", "a.0", "a.1", "a.1.0", "total.1", "x.len", "a[0]"];
             let funs = ["f", "g", "h", "max", "len", "math::clamp", "str::nope", "ns::f", "math::len", "a::b::c", "a", "total", "r", "r", "b", "f\u{feff}"];
             let mut g = AstGen {
                 r,
